@@ -1672,12 +1672,14 @@ class Interp:
         if key in Interp._store_cache:
             return Interp._store_cache[key]
         found = False
+        optional = self._optional_init_stores(attr)
         for f in self.prog.all_funcs.values():
             if f.parent is not None:
                 continue
             for node in ast.walk(f.node):
                 if isinstance(node, ast.Attribute) and node.attr == attr \
-                        and isinstance(node.ctx, (ast.Store, ast.Del)):
+                        and isinstance(node.ctx, (ast.Store, ast.Del)) \
+                        and id(node) not in optional:
                     found = True
                 if _mutates_attr(node, attr):
                     found = True
@@ -1689,6 +1691,150 @@ class Interp:
                     found = True
         Interp._store_cache[key] = found
         return found
+
+    def _optional_init_stores(self, attr):
+        """Stores `self.<attr> = ...` in an __init__ that sit under
+        `if <param> is not None:` for a parameter that defaults to None and
+        that no construction in the package supplies: with the package's own
+        constructions they never run, so the class-level value stays the one
+        an instance sees (an option for callers outside the package is a
+        configuration the class-level table does not describe)."""
+        out = set()
+        for f in self.prog.all_funcs.values():
+            if f.parent is not None or f.cls is None or \
+                    f.node.name != '__init__':
+                continue
+            a = f.node.args
+            names = [x.arg for x in a.args]
+            dflt = dict(zip(names[::-1], a.defaults[::-1]))
+            dflt.update({x.arg: d for x, d in zip(a.kwonlyargs,
+                                                  a.kw_defaults) if d})
+            for st in f.node.body:
+                if not (isinstance(st, ast.If) and not st.orelse and
+                        isinstance(st.test, ast.Compare) and
+                        len(st.test.ops) == 1 and
+                        isinstance(st.test.ops[0], ast.IsNot) and
+                        isinstance(st.test.left, ast.Name) and
+                        isinstance(st.test.comparators[0], ast.Constant) and
+                        st.test.comparators[0].value is None):
+                    continue
+                prm = st.test.left.id
+                d = dflt.get(prm)
+                if not (isinstance(d, ast.Constant) and d.value is None):
+                    continue
+                if any(isinstance(x, ast.Name) and x.id == prm and
+                       isinstance(x.ctx, ast.Store)
+                       for x in ast.walk(f.node)):
+                    continue
+                mine = [x for b in st.body for x in ast.walk(b)
+                        if isinstance(x, ast.Attribute) and x.attr == attr and
+                        isinstance(x.ctx, ast.Store) and
+                        isinstance(x.value, ast.Name) and x.value.id == 'self']
+                if mine and not self._param_supplied(f, prm):
+                    out.update(id(x) for x in mine)
+        return out
+
+    def _param_supplied(self, init, prm):
+        """May some call in the package bind that __init__ parameter?
+        Considered: calls of the class or a subclass by name, explicit
+        `K.__init__(self, ..)` / `super().__init__(..)` of subclasses, and
+        calls through a class attribute bound to the class
+        (`authenticator = ClientAuthenticator` ... `self.authenticator(..)`),
+        the latter resolved by interpreting the calling method as the class
+        that carries the binding.  Anything unresolvable counts as supplied."""
+        prog = self.prog
+        classes = [k for k in prog.all_classes.values()
+                   if init.cls in prog.mro(k)]
+        short = {k.qualname.rsplit('.', 1)[-1] for k in classes}
+        pos = [x.arg for x in init.node.args.args][1:]
+        idx = pos.index(prm) if prm in pos else None
+
+        def binds(node, skip=0):
+            if any(k.arg is None or k.arg == prm for k in node.keywords):
+                return True
+            if any(isinstance(x, ast.Starred) for x in node.args):
+                return True
+            return idx is not None and len(node.args) - skip > idx
+
+        def last(e):
+            return e.id if isinstance(e, ast.Name) else (
+                e.attr if isinstance(e, ast.Attribute) else None)
+
+        holders = {}         # alias attribute -> classes whose body binds it
+        names = set(short)   # module-level aliases
+        for k in prog.all_classes.values():
+            for st in k.node.body:
+                if isinstance(st, ast.Assign) and last(st.value) in short:
+                    for t in st.targets:
+                        if isinstance(t, ast.Name):
+                            holders.setdefault(t.id, []).append(k)
+        for m in prog.modules.values():
+            for st in m.tree.body:
+                if isinstance(st, ast.Assign) and last(st.value) in short:
+                    names.update(t.id for t in st.targets
+                                 if isinstance(t, ast.Name))
+        for m in prog.modules.values():
+            for node in ast.walk(m.tree):
+                if isinstance(node, ast.Assign) and \
+                        last(node.value) in short | set(holders):
+                    for t in node.targets:
+                        if isinstance(t, ast.Attribute):
+                            return True      # rebound at run time somewhere
+        for f in list(prog.all_funcs.values()) + [None]:
+            tree = f.node if f is not None else None
+            nodes = ast.walk(tree) if tree is not None else (
+                n for m in prog.modules.values() for st in m.tree.body
+                if not isinstance(st, (ast.FunctionDef, ast.ClassDef))
+                for n in ast.walk(st))
+            for node in nodes:
+                if not isinstance(node, ast.Call):
+                    continue
+                fn = node.func
+                nm = last(fn)
+                if nm in names and binds(node):
+                    return True
+                if nm == '__init__' and isinstance(fn, ast.Attribute):
+                    if last(fn.value) in short and binds(node, 1):
+                        return True
+                    if isinstance(fn.value, ast.Call) and \
+                            last(fn.value.func) == 'super' and \
+                            f is not None and f.cls in classes and \
+                            binds(node):
+                        return True
+                if nm in holders and isinstance(fn, ast.Attribute) and \
+                        (node.args or node.keywords):
+                    top = f
+                    while top is not None and top.parent is not None:
+                        top = top.parent
+                    if top is None or top.cls is None:
+                        return True
+                    for k in holders[nm]:
+                        if top.cls not in prog.mro(k):
+                            continue
+                        if self._construction_binds(top, k, init, binds_t=(
+                                idx, prm)):
+                            return True
+        return False
+
+    def _construction_binds(self, meth, as_cls, init, binds_t):
+        idx, prm = binds_t
+        try:
+            it = Interp(self.prog, self_cls=as_cls, exc_edges=False,
+                        max_paths=2000)
+            paths = it.run(meth)
+        except Exception:
+            return True
+        seen = False
+        for p in paths:
+            for ev in iter_events(p.trace, deep=True):
+                if ev[0] == 'enter' and ev[1] == init.qualname:
+                    seen = True
+                    c = ev[3]
+                    if any(k in (prm, '**') for k, _ in c[4]) or \
+                            any(kind(a) == 'splice' for a in c[3]) or \
+                            (idx is not None and len(c[3]) > idx):
+                        return True
+        return not seen      # never saw the construction: cannot tell
 
     def ex_BinOp(self, n, st):
         opname = _BINOPS[type(n.op)][0]
